@@ -74,7 +74,7 @@ CHECKS = {
             "model-based (stateful) property testing of operation histories with proptest + bounded-exhaustive enumeration of short histories + fixed large / deep cases",
             "Generated histories of insert/destroy/transfer_within/transfer/clone*/into_raw+from_raw over 1-3 DOMs (arguments always inside the documented "
             "preconditions) are executed on the real WeakDoms; after every step the forest invariants are checked through the public API. All histories of "
-            "length <= 2 (quick) / <= 3 (thorough) over every start tree with <= 4 nodes are enumerated exhaustively. Some DOMs and builders draw their referents on freshly spawned threads; large start trees (1023..12 001, thorough ..70 001 instances, "
+            "length <= 2 over every start tree with <= 4 nodes (quick) / length <= 3 over every start tree with <= 3 nodes (thorough) are enumerated exhaustively. Some DOMs and builders draw their referents on freshly spawned threads; large start trees (1023..12 001, thorough ..70 001 instances, "
             "four shapes) go through a fixed 12-step history; destroy / descendants / into_raw on a chain of 100 000 nested instances run in a child process.",
             "trusts: the reference model's reading of the documented operation semantics; the instance set is only fully visible through into_raw (done at the end of every history and as a random step)",
             "DESIGN.md 2/C09-C12"),
